@@ -265,7 +265,7 @@ def truncate(val: str, num: Any = 50, end: str = "...") -> str:
 
     try:
         num = to_int(num)
-    except ValueError as err:
+    except (ValueError, TypeError, OverflowError) as err:
         raise LiquidTypeError(
             f"truncate expected an integer, found {type(num).__name__}",
             token=None,
@@ -289,7 +289,7 @@ def truncatewords(val: str, num: Any = 15, end: str = "...") -> str:
 
     try:
         num = to_int(num)
-    except ValueError as err:
+    except (ValueError, TypeError, OverflowError) as err:
         raise LiquidTypeError(
             f"truncate expected an integer, found {type(num).__name__}",
             token=None,
